@@ -224,6 +224,15 @@ class Scope:
                 v = f.cls.class_assigns.get(name)
             if v is not None:
                 out.append(v)
+                # tables computed from other tables (`_LABELS = {v: k for k, v in _TOKENS.items()}`)
+                todo = [v]
+                while todo:
+                    cur = todo.pop()
+                    for x in ast.walk(cur):
+                        if isinstance(x, ast.Name) and x.id not in seen and x.id in f.module.assigns:
+                            seen.add(x.id)
+                            out.append(f.module.assigns[x.id])
+                            todo.append(f.module.assigns[x.id])
         return out
 
     def mentions(self, name: str) -> bool:
@@ -886,7 +895,7 @@ def parse_expr(text: str) -> ast.AST:
         return ast.Name(id="_unparsed_", ctx=ast.Load())
 
 
-def reachable_tracking_flags(cfg, defs: Defs, target: int, env: dict[str, bool], start: int | None = None, max_atoms: int = 6) -> bool | None:
+def reachable_tracking_flags(cfg, defs: Defs, target: int, env: dict[str, bool], start: int | None = None, max_atoms: int = 6, at_target: ast.AST | None = None) -> bool | None:
     """Like `reachable_under`, but boolean flags are followed along the path: after `flag = True` / `flag = False` (a constant
     assignment) the atom `flag` has that value until it is assigned again, so `if cond: flag = True ... if flag: return`
     correlates the two tests."""
@@ -911,7 +920,10 @@ def reachable_tracking_flags(cfg, defs: Defs, target: int, env: dict[str, bool],
         while todo:
             x, flags = todo.pop()
             if x == target:
-                return True
+                # `at_target`: a condition that must (be able to) hold on arrival - e.g. the operands left of the one of interest in `a and b`
+                if at_target is None or bool_eval(at_target, base | dict(flags)) is not False:
+                    return True
+                continue
             if (x, flags) in seen:
                 continue
             seen.add((x, flags))
